@@ -515,6 +515,25 @@ type SeqCase struct {
 	Cache    string    `json:"cache"`
 	Versions []Version `json:"versions"`
 	Ops      []SeqOp   `json:"ops"`
+	// SrcSpelling: how Store is given the directory to store: "" clean, slash = trailing separator, dot = /./ before the
+	// last element, double = doubled separator, dotdot = <dir>/<base>/../<base>
+	SrcSpelling string `json:"source_spelling,omitempty"`
+}
+
+func spell(p, how string) string {
+	dir, base := filepath.Dir(p), filepath.Base(p)
+	sep := string(filepath.Separator)
+	switch how {
+	case "slash":
+		return p + sep
+	case "dot":
+		return dir + sep + "." + sep + base
+	case "double":
+		return dir + sep + sep + base
+	case "dotdot":
+		return p + sep + ".." + sep + base
+	}
+	return p
 }
 
 func checkSeq(t ev.T, test string, c SeqCase) {
@@ -584,7 +603,7 @@ func checkSeq(t ev.T, test string, c SeqCase) {
 					return &fsx.Fault{Kind: "error"}
 				}
 			}
-			err := cl.cache.Store(ctx, key, e.srcDir[op.Version])
+			err := cl.cache.Store(ctx, key, spell(e.srcDir[op.Version], c.SrcSpelling))
 			e.box.Backend.FaultAt = nil
 			if hashFault && c.Cache == "mutable" && op.Fault != "revoke" {
 				ev.Exclude("C16-R19 a write of the remote .hash side file failed during a Store of the mutable cache")
@@ -651,6 +670,7 @@ func genSeq(t *rapid.T) SeqCase {
 	// keys and storage paths are free text: they may well contain what the implementation uses as markers
 	c.Key = rapid.SampledFrom([]string{"", "", "v1.partial", "a.part", "k.hash", "cache.zip", "x.part.y", "lockfile-K", "K L"}).Draw(t, "key")
 	c.Remote = rapid.SampledFrom([]string{"", "", "", "remote.parts", "store.hash", "a.part"}).Draw(t, "remote-dir")
+	c.SrcSpelling = rapid.SampledFrom([]string{"", "", "", "slash", "dot", "double", "dotdot"}).Draw(t, "src-spelling")
 	n := rapid.IntRange(2, 10).Draw(t, "ops")
 	for i := 0; i < n; i++ {
 		op := SeqOp{Op: rapid.SampledFrom([]string{"store", "store", "fetch", "fetch", "fetch", "clean", "remove"}).Draw(t, fmt.Sprintf("op%d", i)), Client: rapid.IntRange(0, 3).Draw(t, fmt.Sprintf("cl%d", i))}
